@@ -319,9 +319,14 @@ fn reveal_cases(cw: &mut CaseWriter, rng: &mut Rng, n: usize) {
         m.windows.push(win.clone());
         let occ = m.collect_occluders();
         let mut reveals = vec![];
+        let mut reveals_global = vec![];
         for o in occ.iter().filter(|o| o.linked_to_id == Some(win.id)) {
             if let Some(inv) = o.trans_matrix {
                 let fwd = inv.inverse();
+                reveals_global.push(Value::Array(o.polygon.iter().map(|p| {
+                    let g = fwd * point![p.x, p.y, 0.0];
+                    json!([g.x, g.y, g.z])
+                }).collect()));
                 let pts: Vec<Value> = o
                     .polygon
                     .iter()
@@ -338,9 +343,12 @@ fn reveal_cases(cw: &mut CaseWriter, rng: &mut Rng, n: usize) {
         let wg = &win.geometry;
         let p = wg.position.unwrap();
         cw.write(json!({
-            "op": "noop", "label": format!("reveal:{}:tilt{}", k, tilt), "kind": "reveal",
+            "op": "reveals", "label": format!("reveal:{}:tilt{}", k, tilt), "kind": "reveal",
             "tilt": tilt, "window": {"x": p.x, "y": p.y, "w": wg.width, "h": wg.height, "setback": wg.setback},
-            "impl": {"reveals_wall_coords": reveals},
+            "position": wall.geometry.position.map(|q| json!([q.x, q.y, q.z])),
+            "trig": {"az": [(wall.geometry.azimuth as f64).to_radians().cos(), (wall.geometry.azimuth as f64).to_radians().sin()],
+                     "t": [(tilt as f64).to_radians().cos(), (tilt as f64).to_radians().sin()]},
+            "impl": {"reveals_wall_coords": reveals, "reveals_global": reveals_global},
         }));
     }
 }
